@@ -446,14 +446,8 @@ def _rtw(side_name, dl, elo, has2, renewing, secrets, tw, rv):
 def h_rtw(dl: int, elo: int, has2: bool, good_we: bool, renewing: bool, tl: int, so: int, sl: int, wo: int, wl: int,
           nlkind: int, newlen: int, create1: bool, ro: int, rl: int, p: int) -> bool:
     """
-    pre: X.mutable_inv(dl, elo) and dl <= B["size_max"] and nlkind == B["nlkind"] and good_we == (B["good_we"] == 1)
+    pre: X.mutable_inv(dl, elo) and dl <= B["size_max"]
     pre: 0 <= tl and 0 <= so and 0 <= sl and 0 <= wo and 0 <= wl and wo + wl <= MAX_SIZE and 0 <= newlen and 0 <= ro and 0 <= rl and 0 <= p
-    pre: (B.get("create1") is None or create1 == (B["create1"] == 1)) and (B.get("has2") is None or has2 == (B["has2"] == 1))
-    pre: B.get("vary") != "write" or (tl == 0 and so == 0 and sl == 0 and ro == 0 and rl == 1 and p == 0 and elo == DATA_OFFSET + dl)
-    pre: B.get("renewing") is None or renewing == (B["renewing"] == 1)
-    pre: B.get("dl") is None or (dl == B["dl"] and elo == DATA_OFFSET + B["dl"] + 10)
-    pre: B.get("vary") != "test" or (wo == dl and wl == 3 and elo == DATA_OFFSET + dl and ro == 0 and rl == 1 and p == 0)
-    pre: B.get("vary") != "read" or (wo == dl and wl == 3 and elo == DATA_OFFSET + dl and tl == 0 and so == 0 and sl == 0)
     post: _ == True
     """
     return X.guard(_h_rtw, dl, elo, has2, good_we, renewing, tl, so, sl, wo, wl, nlkind, newlen, create1, ro, rl, p)
@@ -469,7 +463,21 @@ def _wshape(dl, wo, wl):
 
 
 def _h_rtw(dl, elo, has2, good_we, renewing, tl, so, sl, wo, wl, nlkind, newlen, create1, ro, rl, p):
-    nlkind = _pin(nlkind, 0, 2)
+    # what a case does not vary is a plain Python value (no solver work on it); B["vary"] names the symbolic part of the request
+    vary = B["vary"]
+    good_we = True
+    nlkind = B["nlkind"]
+    has2, create1, renewing = bool(B["has2"]), bool(B["create1"]), bool(B["renewing"])
+    if B.get("dl") is not None:
+        (dl, elo) = (B["dl"], DATA_OFFSET + B["dl"] + 10)
+    if vary != "test":
+        (tl, so, sl) = (2, 0, 2)                    # passes whenever the share has two bytes
+    if vary != "write":
+        (wo, wl) = (dl, 3)                          # an append
+    if vary != "read":
+        (ro, rl, p) = (0, 1, 0)
+    if vary != "new-length":
+        newlen = 7
     nl = None if nlkind == 0 else (0 if nlkind == 1 else newlen)
     if nlkind == 2:
         assume(newlen > 0)
@@ -755,6 +763,200 @@ def _h_list_lease(mutable, have0, have2, junk, dlen, elo, renewing, avail):
         mine = [li for li in leases if li.is_renew_secret(RS)]
         if len(mine) != 1 or mine[0].get_expiration_time() != 1000 + 31 * 24 * 60 * 60:
             return "after add_lease the share must carry exactly one lease with the caller's secrets, expiring 31 days from now"
+    return True
+
+
+# ---- the two range kernels on their own (no storage server, integers unbounded) ----------------------------------------------
+
+class _Share(object):
+    """abstract share of `avail` bytes: read(offset, length) returns the provenance of bytes [offset, min(offset+length, avail))"""
+
+    def __init__(self, avail):
+        self.avail = avail
+        self.calls = []
+
+    def read(self, offset, length):
+        self.calls.append((offset, length))
+        end = offset + length if offset + length < self.avail else self.avail
+        if end <= offset:
+            return b""
+        return ProvBuf.src("S", end - offset, offset)
+
+
+def _range_header(kind, a, b):
+    """Range header text of the kernel obligation: None | single closed range | other unit | two ranges | open-ended | garbage"""
+    if kind == 0:
+        return None
+    if kind == 1:
+        return L.SymRange("bytes", [(a, b)]).to_header()
+    if kind == 2:
+        return L.SymRange("lines", [(a, b)]).to_header()
+    if kind == 3:
+        L._TAB.append(("range", "bytes", [(a, b), (b + 5, b + 9)]))
+        return "bytes=<verif-sym-%d>" % (len(L._TAB) - 1)
+    if kind == 4:
+        return "bytes=5-"
+    if kind == 5:
+        return "bytes=-5"
+    return "bytes=abc"
+
+
+def h_server_read_range(kind: int, a: int, b: int, share_length: int, p: int) -> bool:
+    """
+    pre: 0 <= kind <= 6 and 0 <= a < b and 0 <= share_length and 0 <= p
+    pre: B.get("kind") is None or kind == B["kind"]
+    post: _ == True
+    """
+    return X.guard(_h_server_read_range, kind, a, b, share_length, p)
+
+
+def _h_server_read_range(kind, a, b, share_length, p):
+    kind = _pin(kind, 0, 6)
+    del L._TAB[:]
+    hdrs = L.Headers()
+    text = _range_header(kind, a, b)
+    if text is not None:
+        hdrs.setRawHeaders("range", [text])
+    req = L.ServerRequest(b"GET", b"/x", hdrs, None)
+    share = _Share(share_length)
+    end = b if b < share_length else share_length
+    if kind == 0:
+        assume(share_length <= B["body_max"])
+    elif kind == 1:
+        assume(end - a <= B["body_max"])
+    err = None
+    d = None
+    try:
+        d = hs.read_range(req, share.read, share_length)
+    except hs._HTTPError as e:
+        err = e
+    if kind >= 2:
+        if err is None or err.code != hs.http.REQUESTED_RANGE_NOT_SATISFIABLE or share.calls or req.producer is not None:
+            return "a Range header that is not one closed byte range must be refused with 416 before anything is read"
+        return True
+    if kind == 1 and a >= end:
+        if err is None or err.code != hs.http.NO_CONTENT or share.calls or req.producer is not None:
+            return "a range that selects no byte of the share must be answered 204 without reading"
+        return True
+    if err is not None:
+        return "satisfiable request refused with %r" % (err.code,)
+    n = 0
+    while req.producer is not None:
+        n += 1
+        if n > 16:
+            return "producer does not terminate"
+        req.producer.resumeProducing()
+    box = []
+    d.addBoth(box.append)
+    if box != [b""]:
+        return "the route's Deferred must fire with an empty body once everything is written"
+    (lo, hi) = (a, end) if kind == 1 else (0, share_length)
+    body = ProvBuf()
+    for piece in req.written:
+        if len(piece) > 65536:
+            return "a piece larger than 65536 bytes was written"
+        body = body + piece
+    if len(body) != hi - lo:
+        return "body length is not the number of selected bytes"
+    if p < hi - lo and body.at(p) != ("S", lo + p):
+        return "body is not bytes [start, min(end, share length)) of the share"
+    for (o, l) in share.calls:
+        if l > 65536:
+            return "more than 65536 bytes requested from the share in one read"
+    if kind == 1:
+        if req.code != hs.http.PARTIAL_CONTENT:
+            return "a satisfiable range must be answered 206"
+        cr = L.sym_parse_content_range_header(req.responseHeaders.getRawHeaders("content-range")[0])
+        if cr is None or cr.units != "bytes" or cr.start != a or cr.stop != end:
+            return "Content-Range does not announce exactly the bytes sent"
+    else:
+        if req.code != 200 or req.responseHeaders.hasHeader("content-range"):
+            return "a request without Range header must be answered 200 with the whole share"
+    return True
+
+
+class _CannedClient(object):
+    """what http_client.read_share_chunk uses of StorageClient: relative_url, request, _clock"""
+
+    def __init__(self, response):
+        self.response = response
+        self.requests = []
+        self._clock = X.Clock(0)
+
+    def relative_url(self, path):
+        return path
+
+    def request(self, method, url, **kw):
+        self.requests.append((method, url, kw))
+        return L.defer.succeed(self.response)
+
+
+_CODES = [204, 206, 200, 404, 416, 500, 201]
+_read_share_chunk = hc.read_share_chunk
+
+
+def h_client_read_chunk(code_k: int, ct: int, cr: int, start: int, stop: int, blen: int, offset: int, length: int, mutable: bool, p: int) -> bool:
+    """
+    pre: 0 <= code_k < len(_CODES) and 0 <= ct <= 2 and 0 <= cr <= 3 and 0 <= start and 0 <= stop and 0 <= blen <= B["body_max"]
+    pre: 0 <= offset and 1 <= length and 0 <= p
+    pre: (B.get("code_k") is None or code_k == B["code_k"]) and (B.get("not_code_k") is None or code_k != B["not_code_k"])
+    pre: B.get("ct") is None or ct == B["ct"]
+    post: _ == True
+    """
+    return X.guard(_h_client_read_chunk, code_k, ct, cr, start, stop, blen, offset, length, mutable, p)
+
+
+def _h_client_read_chunk(code_k, ct, cr, start, stop, blen, offset, length, mutable, p):
+    code = _CODES[_pin(code_k, 0, len(_CODES) - 1)]
+    ct, cr = _pin(ct, 0, 2), _pin(cr, 0, 3)
+    del L._TAB[:]
+    hdrs = L.Headers()
+    if ct < 2:
+        hdrs.setRawHeaders("content-type", [["application/octet-stream", "text/html"][ct]])
+    # Content-Range: 0 = "bytes start-(stop-1)/*" (valid iff start < stop), 1 = absent, 2 = unparsable text, 3 = "bytes */5"
+    if cr == 0:
+        L._TAB.append(("content-range", "bytes", (start, stop, None)))
+        hdrs.setRawHeaders("content-range", ["bytes <verif-sym-%d>" % (len(L._TAB) - 1)])
+    elif cr == 2:
+        hdrs.setRawHeaders("content-range", ["garbage"])
+    elif cr == 3:
+        hdrs.setRawHeaders("content-range", ["bytes */5"])
+    pieces = []
+    if blen > 1:
+        pieces = [ProvBuf.src("body", 1, 0), ProvBuf.src("body", blen - 1, 1)]        # the body arrives in two pieces
+    elif blen == 1:
+        pieces = [ProvBuf.src("body", 1, 0)]
+    resp = L.ClientResponse(code, hdrs, pieces)
+    client = _CannedClient(resp)
+    out = _outcome(_read_share_chunk(client, "mutable" if mutable else "immutable", X.SI, 7, offset, length))
+    # the request: GET of the share's URL with a Range header that denotes exactly [offset, offset+length)
+    if len(client.requests) != 1:
+        return "exactly one request expected"
+    (method, url, kw) = client.requests[0]
+    if method != "GET" or url != "/storage/v1/%s/%s/7" % ("mutable" if mutable else "immutable", "a" * 26):
+        return "wrong method / URL"
+    rng = L.sym_parse_range_header(kw["headers"].getRawHeaders("range")[0])
+    if rng is None or rng.units != "bytes" or len(rng.ranges) != 1 or rng.ranges[0][0] != offset or rng.ranges[0][1] != offset + length:
+        return "the Range header does not denote [offset, offset+length)"
+    # the answer
+    if code == 204:
+        if out[0] != "ok" or len(out[1]) != 0:
+            return "204 means: no bytes in that range; must return empty data"
+        return True
+    announced_ok = (cr == 0 and start < stop)
+    good = (code == 206 and ct == 0 and announced_ok and stop - start <= length and blen == stop - start)
+    if good:
+        if out[0] != "ok":
+            return "well-formed 206 answer refused"
+        if len(out[1]) != blen or (p < blen and out[1].at(p) != ("body", p)):
+            return "returned data is not the response body"
+        return True
+    if out[0] != "err":
+        return "data returned from an answer that is not a well-formed 206 (status %d, content-type kind %d, content-range kind %d)" % (code, ct, cr)
+    if code != 206 and ct == 0 and not isinstance(out[1], hc.ClientException):
+        return "unexpected status must raise ClientException"
+    if code != 206 and ct == 0 and out[1].code != code:
+        return "ClientException must carry the status code"
     return True
 
 
